@@ -256,3 +256,12 @@ prop('C18',
      nontrivial_line=lambda k, line: k in ('TP', 'TF'),
      rule='(a) SumDBClient.tilePath for tile indices at every carry boundary of the x%03d encoding (999/1000/1001, 10^6 +-1, 10^9 +-1, multiples) and random indices to 1.1*10^9, compared with tlog.Tile.Path and the Lean model; (b) sumdb.FeedLog (one cycle) against an in-memory stub SumDB (http.RoundTripper serving /latest and tiles built with the reference tlog functions) and a recording stub witness for sampled size pairs from < to (quick: 250 pairs to 160; thorough: ~1/40 of all pairs to 1200, every boundary 255/256/257/511/512/513): requested tile paths vs the tiles tlog.ProveTree reads through a reference TileReader, submitted proof vs the harness RFC 6962 proof, tlog.ProveTree, tlog.CheckTree, the Lean rfcProof over SHA-256, the recursive verifier and the witness verifier; every tenth pair also through the real witness',
      assumptions=['tile-to-hash reconstruction (tlog.TileHashReader) is dependency code: compared, not modelled'])
+
+prop('C06',
+     modules=['WitnessVerif.Props.C06'],
+     scenarios=lambda tier: [sc('crash')] + ([sc('crash')] if tier == 'thorough' else []) + [sc('fault')],
+     diverge={'CR': None, 'U': {'accept', 'post', 'calls'}},
+     nontrivial_line=lambda k, line: k == 'CR' and 'killed=1' in line,
+     rule='for first-use, growth and refresh updates on a file-backed SQLite store opened through a wrapping database/sql driver (production pool size), a child process SIGKILLs itself at every driver-event boundary (entry and completion of begin, query, rows.Next, exec, commit; plus one run to completion); acknowledgements are flushed to a pipe before anything else; a fresh process reopens the file and reports every log\'s checkpoint (verified under log and witness keys) and the log list; compared with the model\'s prediction for that kill point; non-trivial = the process was killed',
+     assumptions=['SQLite journal/fsync behaviour is trusted; SIGKILL does not model power loss'],
+     exhaustive=True)
